@@ -552,6 +552,94 @@ Definition sprintbuf_gen (flat : bool) (o : oracle) (q : lpb) (out : list byte) 
 Definition sprintbuf := sprintbuf_gen false.
 Definition sprintbuf_flat := sprintbuf_gen true.
 
+(* ------------------------------------------------------------------ configuration calls that allocate *)
+(* json_c_set_serialization_double_format(fmt, scope) called by thread [tid].  The settings are
+   SerModel's [fmt_state] (global format, per-thread formats); with them go the blocks that hold
+   the two strings this thread can release: the global one and its own thread-local one.
+     GLOBAL: p = fmt ? strdup(fmt) : NULL; if (fmt && !p) return -1;
+             if (tls) { free(tls); tls = NULL; }  free(global); global = p;
+     THREAD: p = fmt ? strdup(fmt) : NULL; if (fmt && !p) return -1;  free(tls); tls = p;
+     other : return -1
+   The result always carries the configuration afterwards and the return value, so that "a
+   failed call leaves the configuration as it was" is a statement and not a convention.
+   [early] = the shape that releases the thread's format BEFORE the copy (negative control). *)
+Record fcfg := mkfc { fc_st : fmt_state; fc_gblk : option nat; fc_tblk : option nat }.
+
+Definition cfg_blocks (c : fcfg) : list nat :=
+  (match fc_gblk c with Some b => [b] | None => [] end) ++
+  (match fc_tblk c with Some b => [b] | None => [] end).
+
+Definition free_opt (b : option nat) (s : ast) : res unit :=
+  match b with Some x => free x s | None => Ok tt s end.
+
+(* p = fmt ? strdup(fmt) : NULL — None = the copy failed *)
+Definition dup_opt (o : oracle) (fmt : option (list byte)) (s : ast) : res (option (option nat)) :=
+  match fmt with
+  | None => Ok (Some None) s
+  | Some _ => match alloc o s with
+              | Ok b s' => Ok (Some (Some b)) s'
+              | Fail s' => Ok None s'
+              | UB => UB
+              end
+  end.
+
+Definition set_format_gen (early : bool) (o : oracle) (c : fcfg) (tid : Z) (fmt : option (list byte))
+           (scope : Z) (s : ast) : res (fcfg * Z) :=
+  let st' := fst (set_format true (fc_st c) tid fmt scope) in
+  if scope =? 0 then
+    if early then
+      (* the thread's override is dropped first *)
+      match free_opt (fc_tblk c) s with
+      | Ok _ s1 =>
+          let c1 := mkfc (mkfs (g_fmt (fc_st c)) (t_remove tid (t_fmt (fc_st c)))) (fc_gblk c) None in
+          match dup_opt o fmt s1 with
+          | Ok None s2 => Ok (c1, -1) s2
+          | Ok (Some p) s2 =>
+              match free_opt (fc_gblk c) s2 with
+              | Ok _ s3 => Ok (mkfc st' p None, 0) s3
+              | Fail s3 => Fail s3
+              | UB => UB
+              end
+          | Fail s2 => Fail s2
+          | UB => UB
+          end
+      | Fail s1 => Fail s1
+      | UB => UB
+      end
+    else
+      match dup_opt o fmt s with
+      | Ok None s1 => Ok (c, -1) s1
+      | Ok (Some p) s1 =>
+          match free_opt (fc_tblk c) s1 with
+          | Ok _ s2 =>
+              match free_opt (fc_gblk c) s2 with
+              | Ok _ s3 => Ok (mkfc st' p None, 0) s3
+              | Fail s3 => Fail s3
+              | UB => UB
+              end
+          | Fail s2 => Fail s2
+          | UB => UB
+          end
+      | Fail s1 => Fail s1
+      | UB => UB
+      end
+  else if scope =? 1 then
+    match dup_opt o fmt s with
+    | Ok None s1 => Ok (c, -1) s1
+    | Ok (Some p) s1 =>
+        match free_opt (fc_tblk c) s1 with
+        | Ok _ s2 => Ok (mkfc st' (fc_gblk c) p, 0) s2
+        | Fail s2 => Fail s2
+        | UB => UB
+        end
+    | Fail s1 => Fail s1
+    | UB => UB
+    end
+  else Ok (c, -1) s.
+
+Definition set_format_cfg := set_format_gen false.
+Definition set_format_early := set_format_gen true.
+
 (* ------------------------------------------------------------------ the uniform shape of the fault theorems *)
 (* what an operation under an arbitrary allocator may do: complete with a result that meets
    its specification, or refuse leaving the state as it was (up to [same]: counters of
@@ -577,3 +665,13 @@ Definition res_out {A} (r : res A) : outcome ast A :=
 
 (* nothing leaked, nothing released: the same blocks are live *)
 Definition same_live (s s' : ast) : Prop := live s' = live s.
+
+(* the call's result in the uniform shape: state = (configuration, ledger) *)
+Definition cfg_out (r : res (fcfg * Z)) : outcome (fcfg * ast) unit :=
+  match r with
+  | Ok (c, 0) s => Done (c, s) tt
+  | Ok (c, _) s => Refused (c, s)
+  | Fail _ => Undefined          (* the call has no such exit *)
+  | UB => Undefined
+  end.
+
